@@ -326,6 +326,8 @@ pub struct Stats {
     pub by_kind: BTreeMap<&'static str, u64>,
     pub samples: Vec<Value>,
     pub exhaustive_positions: u64,
+    /// order-sensitive digest of (program, kind, plan, schedule, event log, outcome) of every run
+    pub digest: u64,
 }
 
 impl Stats {
@@ -353,6 +355,7 @@ impl Stats {
             "by_kind": self.by_kind,
             "samples": self.samples,
             "exhaustive_positions": self.exhaustive_positions,
+            "digest": self.digest.to_string(),
         })
     }
 }
@@ -363,6 +366,7 @@ fn record_stats(st: &mut Stats, prog: &Prog, kind: Kind, plan: &Plan, strat: Str
     Stats::bump(&mut st.by_kind, kind.name(), 1);
     let sig = hash_all(&[prog.id as u64, kind as u64, plan_hash, ev.obs.log_hash]);
     st.sigs.insert(sig);
+    st.digest = hash_all(&[st.digest, sig, hash_str(&ev.obs.outcome.short()), hash_str(&ev.refrun.outcome.short()), ev.obs.decisions.len() as u64]);
     let nontrivial = if kind.is_concurrent() { ev.obs.alternatives >= 1 && (ev.sum.concurrent_entities >= 2 || ev.obs.max_pending_gates >= 2) } else { true };
     if nontrivial {
         st.nontrivial_sigs.insert(sig);
